@@ -78,7 +78,7 @@ def run_sat(pid, tier, seed, mcs, runs, module, nontrivial, assumptions, extra_c
 
 def c12(tier, seed):
     return run_sat('C12', tier, seed,
-        lambda th: [('MC_sort4', 'MC_sort4', False), ('Defect_sort_sibling', 'MC_sort4', True)] + ([('MC_sort5', 'MC_sort4', False)] if th else []),
+        lambda th: [('MC_sort4', 'MC_sort4', False), ('Defect_sort_sibling', 'MC_sort4', True)],    # 5 rules would be 2^25 graphs x 6 goals: out of reach for TLC here
         lambda th, s: [['sort', '--n', '4' if th else '3', '--random', '20000' if th else '1500', '--seed', str(s)]],
         'SortTrace', lambda r: len(r['rules']) >= 2,
         ['rule lists as the parser delivers them (canonical order inside a rule)', 'SortImpl.tla transcribes single-target rules; multi-target rules and leaves are covered through the real code'],
